@@ -547,7 +547,19 @@ pub fn profile_run(seed: u64, wrapped: &mut InstructionSet, names: &[String], tw
     }
     simenv::begin(&env, e, names, None);
     let mut st = t.state.build(&t.cfg);
-    load_program(&mut st, wrapped, &t.prog, false);
+    if seed % 2 == 0 {
+        // through the real parser, whatever it makes of the text (no tree comparison here: the
+        // parser is part of what must not depend on profile or history)
+        let mut text = render_program(&t.prog);
+        if seed % 16 == 0 {
+            // deep nesting around it
+            let d = 100 + (seed / 16 % 900) as usize;
+            text = format!("{}{}{}", "( ".repeat(d), text, " )".repeat(d));
+        }
+        let _ = caught(|| pushr::push::parser::PushParser::parse_program(&mut st, wrapped, &text));
+    } else {
+        load_program(&mut st, wrapped, &t.prog, false);
+    }
     let res = caught(|| format!("{:?}", PushInterpreter::run(&mut st, wrapped)));
     let core = simenv::end();
     let mut stats = RunStats {
